@@ -124,6 +124,12 @@ def run(ctx):
     for ln in lines[:: max(1, len(lines) // 3)][:3]:
         ctx.sample({k: ln[k] for k in ("proc", "x", "Q2", "m2", "hq", "chi", "all_zero", "light_unchanged", "delta_milli")})
     bad = ctx.tlc_validate("Trace_C09", "Trace.cfg", [{k: v for k, v in ln.items() if k != "note"} for ln in lines])
+    ctx.selftest("Trace_C09", "Trace.cfg", [{k: v for k, v in ln.items() if k not in ('note',)} for ln in lines if ln["oid"] not in bad and (True)], [
+        ("all_zero", lambda l: dict(l, all_zero=not l["all_zero"])),
+        ("outcome", lambda l: dict(l, outcome="Crash_ZeroDivisionError")),
+        ("delta", lambda l: dict(l, delta_milli=5000) if l["proc"] == "CC" and not l["all_zero"] else None),
+        ("partonic", lambda l: dict(l, partonic_ok=False) if l["proc"] == "NC" and not l["all_zero"] else None),
+        ("light", lambda l: dict(l, light_unchanged=False) if l["proc"] == "NC" and l["all_zero"] else None)])
     by = {ln["oid"]: (o, ln) for o, ln in zip(todo, lines)}
     for oid, clause in bad.items():
         o, ln = by[oid]
